@@ -178,3 +178,7 @@ Definition fmt_node (f : fflags) (pad : nat) (n : node) (inline : text) : text :
          | _ => pad_end (node_body f n) pad ++ s "; " ++ inline
          end
   end.
+
+(* FormatFlags::kPositions: "<%05u> " before a node that has a position; the inline-comment padding starts after it *)
+Definition fmt_node_pos (positions : bool) (pos : Z) (f : fflags) (pad : nat) (n : node) (inline : text) : text :=
+  (if positions && negb (pos =? 0) then "<"%char :: fmt_num pos 10 5 nf_none ++ s "> " else []) ++ fmt_node f pad n inline.
